@@ -32,7 +32,7 @@ static void build(const Args &a, std::vector<Case> &out) {
   std::vector<int> Ts = a.list("T", {1, 2, 3, 4, 5, 6, 7, 8, 9, 10, 11, 12, 13, 14, 15, 16});
   for (int T : Ts) {
     size_t maxn = (size_t)(T + 2) * S + 17;
-    bool allh = (T == 1 || T == 2 || T == 4);
+    bool allh = (T == 1 || T == 2 || T == 4) || thorough; // thorough: every hash mode for every T
     for (size_t n = 0; n <= maxn; n++)
       for (int cm = 0; cm < 5; cm++)
         for (int hm = 0; hm < (allh ? 3 : 1); hm++) {
